@@ -743,7 +743,12 @@ func (lcp *LCPStateMachine) receiveEchoRequest(pkt *LCPPacket) error {
 	}
 
 	// Build Echo-Reply with our magic number
-	replyData := make([]byte, 4+len(pkt.Data)-4)
+	// (an Echo-Request shorter than the 4-byte magic number is answered with the magic number alone)
+	replyLen := len(pkt.Data)
+	if replyLen < 4 {
+		replyLen = 4
+	}
+	replyData := make([]byte, replyLen)
 	binary.BigEndian.PutUint32(replyData[:4], lcp.config.MagicNumber)
 	if len(pkt.Data) > 4 {
 		copy(replyData[4:], pkt.Data[4:])
